@@ -598,3 +598,17 @@ func (u *H2Upstream) Close() {
 	u.mu.Unlock()
 	u.wg.Wait()
 }
+
+// The *Locked accessors are for use inside a Wait condition (the upstream's lock is held there).
+
+// NumConnsLocked is NumConns for Wait conditions.
+func (u *H2Upstream) NumConnsLocked() int { return len(u.order) }
+
+// ReqLocked returns the live record of the request carrying token (nil if it has not arrived).
+func (u *H2Upstream) ReqLocked(token string) *H2Req { return u.reqs[token] }
+
+// ConnLocked returns the live record of connection id.
+func (u *H2Upstream) ConnLocked(id int) *H2Conn { return u.conns[id] }
+
+// ConnsLocked returns the live records of all accepted connections.
+func (u *H2Upstream) ConnsLocked() []*H2Conn { return u.order }
